@@ -874,12 +874,17 @@ class UpdateableGroup(updateable_base):
         if self._nodes is None:
             return
 
+        # The group is also busy while its own FIFO is not empty: a pre-pull
+        # search from an earlier update may still be queued or running, and
+        # its request must not be dispatched a second time.
+        init_idle = self._init_idle and self._queue.fifo_size(self.io.fifo) == 0
+
         # Call the before update hook
-        do_update = self.io.before_update(self._init_idle)
+        do_update = self.io.before_update(init_idle)
 
         # Update only happens if the queue is empty and the I/O layer hasn't
         # cancelled the update
-        if self._init_idle and do_update:
+        if init_idle and do_update:
             log.info(f'Updating group "{self.name}".')
             Metric(
                 "group_update",
@@ -907,7 +912,7 @@ class UpdateableGroup(updateable_base):
         else:
             log.info(
                 f"Skipping update for group {self.name}: "
-                + ("busy" if not self._init_idle else "cancelled")
+                + ("busy" if not init_idle else "cancelled")
             )
 
     def update_idle(self) -> None:
